@@ -16,19 +16,19 @@ namespace MpVerif.C20
 def tokNat? (t : Str) : Option Nat :=
   if t != [] && allDigits t then some (t.foldl (fun a c => a * 10 + (c.toNat - 48)) 0) else none
 
-def JMems.getNat? (ms : JMems) (k : String) : Option Nat :=
-  match ms.get? k.toList with
+def JMems.getNat? (ms : JMems) (k : Str) : Option Nat :=
+  match ms.get? k with
   | some (.num t) => tokNat? t
   | _ => none
 
-def JMems.getStr? (ms : JMems) (k : String) : Option Str :=
-  match ms.get? k.toList with
+def JMems.getStr? (ms : JMems) (k : Str) : Option Str :=
+  match ms.get? k with
   | some (.str s) => some s
   | _ => none
 
-def JMems.has (ms : JMems) (k : String) : Bool := (ms.get? k.toList).isSome
+def JMems.has (ms : JMems) (k : Str) : Bool := (ms.get? k).isSome
 
-def flag? (ms : JMems) (k : String) : Option Bool :=
+def flag? (ms : JMems) (k : Str) : Option Bool :=
   match ms.getNat? k with
   | some 0 => some false
   | some 1 => some true
@@ -84,58 +84,58 @@ def nodup : List Str → Bool
 /-- decode one top-level object; `none` = not a record shape the exporters write -/
 def classify (ms : JMems) : Option Rec :=
   if !nodup ms.keys then none
-  else if ms.has "COMMENT" then some .comment
-  else if ms.has "link_index" then
-    match ms.get? "link_index".toList, ms.getStr? "link_type",
-          ms.get? "src_nodes".toList, ms.get? "dest_nodes".toList with
+  else if ms.has cl!"COMMENT" then some .comment
+  else if ms.has cl!"link_index" then
+    match ms.get? cl!"link_index", ms.getStr? cl!"link_type",
+          ms.get? cl!"src_nodes", ms.get? cl!"dest_nodes" with
     | some (.arr (.cons (.num a) (.cons (.num b) .nil))), some ty, some (.arr s), some (.arr t) =>
       match tokNat? a, tokNat? b, nodeRefs? s, nodeRefs? t with
       | some _, some e, some ss, some ts => some (.link ty e ss ts)
       | _, _, _, _ => none
     | _, _, _, _ => none
-  else if ms.has "CON_TYPE" then
-    match ms.getStr? "CON_TYPE" with
+  else if ms.has cl!"CON_TYPE" then
+    match ms.getStr? cl!"CON_TYPE" with
     | none => none
     | some ty =>
-      if ms.has "final" then
-        match ms.getNat? "index", ms.getNat? "depth", flag? ms "unused", flag? ms "bridged", flag? ms "final" with
+      if ms.has cl!"final" then
+        match ms.getNat? cl!"index", ms.getNat? cl!"depth", flag? ms cl!"unused", flag? ms cl!"bridged", flag? ms cl!"final" with
         | some i, some _, some u, some b, some f =>
-          if ms.has "name" then
-            match ms.getStr? "name" with
+          if ms.has cl!"name" then
+            match ms.getStr? cl!"name" with
             | some nm => some (.conStatus ty i nm u b f)
             | none => none
           else some (.conStatus ty i [] u b f)
         | _, _, _, _, _ => none
-      else if ms.has "data" then
-        match ms.getNat? "index", ms.getNat? "depth" with
+      else if ms.has cl!"data" then
+        match ms.getNat? cl!"index", ms.getNat? cl!"depth" with
         | some i, some _ => some (.conNew ty i)
         | _, _ => none
-      else if ms.has "CON_GROUP" then
-        match ms.getStr? "CON_GROUP", ms.getNat? "CON_GROUP_index" with
+      else if ms.has cl!"CON_GROUP" then
+        match ms.getStr? cl!"CON_GROUP", ms.getNat? cl!"CON_GROUP_index" with
         | some _, some g => some (.conGroup ty g)
         | _, _ => none
       else none
-  else if ms.has "VAR_index" then
-    match ms.getNat? "VAR_index", flag? ms "is_from_nl", ms.getNat? "type", ms.get? "bounds".toList with
+  else if ms.has cl!"VAR_index" then
+    match ms.getNat? cl!"VAR_index", flag? ms cl!"is_from_nl", ms.getNat? cl!"type", ms.get? cl!"bounds" with
     | some i, some b, some _, some bd => if isTwoNums bd then some (.var i b) else none
     | _, _, _, _ => none
-  else if ms.has "NL_COMMON_EXPR_index" then
-    match ms.getNat? "NL_COMMON_EXPR_index" with
+  else if ms.has cl!"NL_COMMON_EXPR_index" then
+    match ms.getNat? cl!"NL_COMMON_EXPR_index" with
     | some i => some (.nlDefVar i)
     | none => none
-  else if ms.has "NL_OBJECTIVE_index" then
-    match ms.getNat? "NL_OBJECTIVE_index", ms.getNat? "sense" with
+  else if ms.has cl!"NL_OBJECTIVE_index" then
+    match ms.getNat? cl!"NL_OBJECTIVE_index", ms.getNat? cl!"sense" with
     | some i, some _ => some (.nlObj i)
     | _, _ => none
-  else if ms.has "NL_CON_TYPE" then
-    match ms.getStr? "NL_CON_TYPE", ms.getNat? "index" with
+  else if ms.has cl!"NL_CON_TYPE" then
+    match ms.getStr? cl!"NL_CON_TYPE", ms.getNat? cl!"index" with
     | some ty, some i =>
-      if ty = "logical".toList then some (.nlCon i true)
-      else if ty = "lin".toList || ty = "nonlin".toList then some (.nlCon i false)
+      if ty = cl!"logical" then some (.nlCon i true)
+      else if ty = cl!"lin" || ty = cl!"nonlin" then some (.nlCon i false)
       else none
     | _, _ => none
-  else if ms.has "OBJECTIVE_index" then
-    match ms.getNat? "OBJECTIVE_index", ms.getNat? "sense" with
+  else if ms.has cl!"OBJECTIVE_index" then
+    match ms.getNat? cl!"OBJECTIVE_index", ms.getNat? cl!"sense" with
     | some i, some _ => some (.obj i)
     | _, _ => none
   else none
@@ -177,7 +177,7 @@ def groupCount (d : Delivered) (grp : Nat) : Nat := (d.cons.filter (fun c => c.g
 
 /-- `dest_cons(<n>)` -/
 def destConsGroup? (name : Str) : Option Nat :=
-  match dropPrefix "dest_cons(".toList name with
+  match dropPrefix cl!"dest_cons(" name with
   | none => none
   | some r =>
     match r.reverse with
@@ -186,11 +186,11 @@ def destConsGroup? (name : Str) : Option Nat :=
 
 /-- size of the item class a link endpoint names -/
 def nodeSize (g : List Rec) (d : Delivered) (name : Str) : Option Nat :=
-  if name = "src_vars()".toList then some d.nlVars
-  else if name = "src_cons()".toList then some (d.nlAlgCons + d.nlLogCons)
-  else if name = "src_objs()".toList then some d.nlObjs
-  else if name = "dest_vars()".toList then some d.nVars
-  else if name = "dest_objs()".toList then some d.nObjs
+  if name = cl!"src_vars()" then some d.nlVars
+  else if name = cl!"src_cons()" then some (d.nlAlgCons + d.nlLogCons)
+  else if name = cl!"src_objs()" then some d.nlObjs
+  else if name = cl!"dest_vars()" then some d.nVars
+  else if name = cl!"dest_objs()" then some d.nObjs
   else match destConsGroup? name with
     | some grp => some (groupCount d grp)
     | none => if classSize g name = 0 then none else some (classSize g name)
